@@ -166,7 +166,7 @@ Definition parse_frame (fmt : pixfmt) (p : pinfo) (frame_id : Z) : IT pinfo :=
   let p := with_times p (zadd frame_id duration (pi_times p)) in
   let num_chunks := if new_n =? 0 then old_n else new_n in
   st <- iterZ num_chunks read_chunk ([], num_bytes - 16) ;;
-  lift (rfold (process_chunk fmt frame_id) (rev (fst st)) p).
+  lift (rfold (process_chunk fmt frame_id) (frev (fst st)) p).
 
 (* parse_pixel_format *)
 Definition parse_pixel_format (depth transparent : Z) : res pixfmt :=
